@@ -1297,7 +1297,7 @@ static void initializer2(Token **rest, Token *tok, Initializer *init) {
     // Handle that case first.
     Node *expr = assign(rest, tok);
     add_type(expr);
-    if (expr->ty->kind == TY_STRUCT) {
+    if (expr->ty->kind == TY_STRUCT && is_compatible(expr->ty, init->ty)) {
       init->expr = expr;
       return;
     }
@@ -1312,7 +1312,7 @@ static void initializer2(Token **rest, Token *tok, Initializer *init) {
       Token *end;
       Node *expr = assign(&end, tok);
       add_type(expr);
-      if (expr->ty->kind == TY_UNION) {
+      if (expr->ty->kind == TY_UNION && is_compatible(expr->ty, init->ty)) {
         init->expr = expr;
         *rest = end;
         return;
